@@ -45,6 +45,8 @@ package main
 //@   ensures [keeps-the-status] w.StatusCode == statusCode
 
 //@ func InvokeHandler
+// wiring fact of main (startHTTPServer passes the sandbox it was given), assumed at the handler's entry
+//@   requires sandbox != nil && (typeis(sandbox, *rapidcore.EmulatorAPI) ==> sandbox.(*rapidcore.EmulatorAPI) != nil)
 //@   requires w != nil && r != nil
 //@   ensures [at-most-one-invoke] delta(SandboxInvoke) <= 1 && (readFails(r.Body) ==> delta(SandboxInvoke) == 0 && ghost(httpStatus) == 500)
 //@   ensures [payload-is-the-request-body] delta(SandboxInvoke) == 1 ==> readerContent(lastarg(SandboxInvoke, 2).Payload) == readerContent(r.Body) && readerLen(lastarg(SandboxInvoke, 2).Payload) == readerLen(r.Body) && typeis(lastarg(SandboxInvoke, 1), *ResponseWriterProxy) && fresh(proxyOf(lastarg(SandboxInvoke, 1))) && fresh(lastarg(SandboxInvoke, 2))
